@@ -9,7 +9,7 @@ one() {
   ln -s /verif/known_findings.json "$vd/known_findings.json"; ln -s /verif/tools "$vd/tools"
   out="$d/.matrix.txt"; : > "$out"
   for p in C01 C02 C03 C04 C05 C06 C07 C08 C09 C10 C11 C12 C13 C14 C15 C16 C17 C18 C19; do
-    VERIF_REPO="$wt" VERIF_DIR="$vd" timeout 900 /verif/bin/jsverif check $p ${TIER:-quick} 2>&1 | grep -a "^VIOLATION" | sed -E "s/^VIOLATION property=([A-Z0-9]+) replay=[^ ]+ rule=([^ ]+) .*/\1 \2/" | sort -u >> "$out"
+    VERIF_REPO="$wt" VERIF_DIR="$vd" timeout 900 ${JSVERIF_BIN:-/verif/bin/jsverif} check $p ${TIER:-quick} 2>&1 | grep -a "^VIOLATION" | sed -E "s/^VIOLATION property=([A-Z0-9]+) replay=[^ ]+ rule=([^ ]+) .*/\1 \2/" | sort -u >> "$out"
   done
   git -C /repo worktree remove --force "$wt"; rm -rf "$vd"
   echo "$id $(awk '{print $1}' "$out" | sort -u | tr '\n' ' ')"
